@@ -12,8 +12,8 @@ import tempfile
 from vf import common
 
 PRISTINE = [
-    {'x': [1, 2], 'y': {'z': 1}, 'id': 0},
-    {'x': [3], 'y': {'z': 2}, 'id': 1},
+    {'x': [1, 2], 'y': {'z': 1}, 'id': 0, 'h': ['spk', [10, 11], {'q': 1}, ([5], 'u')]},
+    {'x': [3], 'y': {'z': 2}, 'id': 1, 'h': [0, [], {'q': [2]}, ([6, 7], 'v')]},
 ]
 KEYS = ['a', 'b']
 N = len(PRISTINE)
@@ -136,6 +136,10 @@ def mutate(ex, depth):
     else:
         ex['x'].append(99)
         ex['y']['z'] = 'MUT'
+        # containers that sit behind scalars inside a list, and inside a tuple
+        ex['h'][1].append('MUT')
+        ex['h'][2]['q'] = 'MUT'
+        ex['h'][3][0].append('MUT')
         if 'arr' in ex:
             ex['arr'][:3] = -1.0          # in place, inside the (possibly shared) buffer
 
